@@ -73,6 +73,34 @@ import os as _os
 _CHAOS = set(filter(None, _os.environ.get("PST_CHAOS", "").split(",")))
 
 
+def _chunk_constants(project) -> set:
+    """qualified names of module-level integer constants (>= 8) that reach the step of a 3-argument range(): directly, or as
+    the default of the parameter used as the step"""
+    cache = project.__dict__.get("_chunk_consts")
+    if cache is not None:
+        return cache
+    out = set()
+    for q, fi in project.functions.items():
+        nd = fi.node
+        if not isinstance(nd, (ast.FunctionDef, ast.AsyncFunctionDef)):
+            continue
+        a = nd.args
+        pos = a.posonlyargs + a.args
+        defaults = dict(zip([x.arg for x in pos[len(pos) - len(a.defaults):]], a.defaults))
+        defaults.update({x.arg: d for x, d in zip(a.kwonlyargs, a.kw_defaults) if d is not None})
+        for n in ast.walk(nd):
+            if isinstance(n, ast.Call) and isinstance(n.func, ast.Name) and n.func.id == "range" and len(n.args) == 3 \
+                    and isinstance(n.args[2], ast.Name):
+                nm = n.args[2].id
+                src = defaults.get(nm) if nm in defaults else (n.args[2] if nm not in {x.arg for x in pos} else None)
+                if isinstance(src, ast.Name) and src.id in fi.module.globals:
+                    g = fi.module.globals[src.id]
+                    if isinstance(g, ast.Constant) and isinstance(g.value, int) and not isinstance(g.value, bool) and g.value >= 8:
+                        out.add(f"{fi.module.name}.{src.id}")
+    project.__dict__["_chunk_consts"] = out
+    return out
+
+
 def _iter_rest(itv):
     src, k = itv.attrs["src"], itv.attrs["pos"]
     itv.attrs["pos"] = None  # exhausted by this loop
@@ -881,6 +909,16 @@ class Interp:
             if lo.e[0] == "num" and float(lo.e[1]).is_integer():
                 return sp, iv, lambda: Sc(sym.IV(iv, int(lo.e[1])))
             return sp, iv, lambda: Sc(sym.add(sym.IV(iv), lo.e))
+        if isinstance(it, ObjV) and it.tag == "strided-range":
+            lo, hi, st = it.attrs["lo"].e, it.attrs["hi"].e, it.attrs["step"].e
+            if all(x[0] == "num" for x in (lo, hi, st)) and (hi[1] - lo[1]) / st[1] <= 24:
+                return None, None, [Sc(sym.Num(float(k))) for k in range(int(lo[1]), int(hi[1]), int(st[1]))]
+            # trips k = 0 .. ceil((hi-lo)/step)-1, the loop variable is lo + k*step
+            count = sym.fn("ceil", sym.div(sym.sub(hi, lo), st))
+            sp = Space(("strided", lo, hi, st), count)
+            iv = fresh()
+            self.ivspace[iv] = sp
+            return sp, iv, lambda: Sc(sym.add(lo, sym.mul(sym.IV(iv), st)))
         if isinstance(it, ObjV) and it.tag == "enumerate":
             sp, iv, f = self.iteration(it.attrs["inner"], node)
             if sp is None:
@@ -916,6 +954,48 @@ class Interp:
                 self.lose("zip of sequences that went through different row selections: paired by position, not by row", node)
                 u = self.unknown("zip-misaligned", node)
                 return rng(sym.Opq("len", ())), fresh("b"), lambda: u
+            # sequences of lengths that cannot be compared (all the rows against one block of them): zip pairs them by
+            # position counted from the start of each, and stops at the shortest
+            sizes_ = [x[0].size for x in syms_]
+            comparable = all(sym.sub(z, sizes_[0])[0] == "num" for z in sizes_[1:])
+            if not comparable:
+                def _start(sp_):
+                    k_ = sp_.key
+                    if isinstance(k_, tuple) and len(k_) == 4 and k_[0] == "slice":
+                        return k_[2]       # a slice keeps the numbering of the space it was cut from
+                    if isinstance(k_, tuple) and k_ and k_[0] in ("rows", "range", "n"):
+                        return sym.ZERO
+                    return None
+                starts = [_start(x[0]) for x in syms_]
+                if any(st_ is None for st_ in starts):
+                    self.lose("zip of sequences whose lengths cannot be compared", node)
+                    u = self.unknown("zip-lengths", node)
+                    return rng(sym.Opq("len", ())), fresh("b"), lambda: u
+                cut = [x[0].key for x, st_ in zip(syms_, starts) if st_ != sym.ZERO]
+                whole = [x[0].key for x, st_ in zip(syms_, starts) if st_ == sym.ZERO]
+                if any(c_[1] == w_ for c_ in cut for w_ in whole):
+                    # a block of the rows of P (from a start that is not 0 in general) against all the rows of P: entry j of the
+                    # block is row start+j, entry j of the other is row j — a definite misalignment beyond the first block
+                    self.event("zip-misaligned", node, spaces=[x[0].key for x in syms_])
+                jv = fresh()
+                jsp = rng(sym.fn("min", *sizes_))
+                self.ivspace[jv] = jsp
+                fs2 = [(iv_k, f_k, st_) for (sp_k, iv_k, f_k), st_ in zip(inners, starts)]
+
+                def elem_rel():
+                    out = []
+                    for iv_k, f_k, st_ in fs2:
+                        v_ = f_k()
+                        if st_ == sym.ZERO:
+                            out.append(_rename_val(v_, iv_k, jv))
+                        else:
+                            r_ = _subst_val_expr(v_, iv_k, sym.add(st_, sym.IV(jv)))
+                            if r_ is None:
+                                self.lose("zip over a block: an entry could not be re-indexed by its position in the block", node)
+                                r_ = self.unknown("zip-block-entry", node)
+                            out.append(r_)
+                    return Seq(out, "tuple")
+                return jsp, jv, elem_rel
             # common length = the smallest size (sizes differ by constants in the repo: zip(l, l[1:]))
             best = syms_[0]
             for s in syms_[1:]:
@@ -1717,6 +1797,9 @@ class Interp:
                 # A[idx] with idx a tuple of index arrays (np.diag_indices, np.nonzero, ...): the same as A[idx[0], idx[1]]
                 out.extend(("fancy", y) for y in v.items)
                 continue
+            if isinstance(v, ObjV) and v.tag == "slice" and v.attrs.get("items"):
+                out.extend(v.attrs["items"])   # a slice object held in a variable
+                continue
             if isinstance(v, NoneV):
                 out.append(("new",))
             elif isinstance(v, StrV):
@@ -1804,6 +1887,11 @@ class Interp:
         mod, _, name = tgt.rpartition(".")
         m = self.p.modules.get(mod)
         if m is not None and name in m.globals:
+            if tgt in _chunk_constants(self.p):
+                # a module-level integer used as the step of a strided range (a block size for chunked processing): the
+                # result must not depend on its value, so it is followed as a positive integer symbol — small diagrams
+                # then span several blocks when the derived expressions are evaluated
+                return Sc(sym.Sym("$chunk:" + name))
             fr_save = self.frames
             return self.eval(m.globals[name], {})
         if tgt.split(".")[0] in ("numpy", "scipy", "sklearn", "matplotlib", "builtins", "warnings", "itertools",
@@ -2666,6 +2754,22 @@ def _same_abstract(a: Val, b: Val) -> bool:
     if isinstance(a, ObjV) and isinstance(b, ObjV):
         return a.tag == b.tag and a.cls == b.cls and a.tag is not None
     return False
+
+
+def _subst_val_expr(v: Val, old: Optional[str], expr) -> Optional[Val]:
+    """v with the index variable `old` replaced by an expression (None when some part cannot be re-indexed)"""
+    if old is None:
+        return v
+    if isinstance(v, Sc):
+        e = sym.subst_ivar_expr(v.e, old, expr) if old in sym.free_ivars(v.e) else v.e
+        return Sc(e) if e is not None else None
+    if isinstance(v, Arr):
+        e = sym.subst_ivar_expr(v.elem, old, expr) if old in sym.free_ivars(v.elem) else v.elem
+        return Arr(v.axes, e, v.kind, v.uid) if e is not None else None
+    if isinstance(v, Seq):
+        items = [_subst_val_expr(x, old, expr) for x in v.items]
+        return Seq(items, v.kind) if all(x is not None for x in items) else None
+    return v
 
 
 def _rename_val(v: Val, old: Optional[str], new: str) -> Val:
